@@ -510,10 +510,11 @@ GENERIC = {
                ("mixedx", "base", 40, 600, 20, merged(SMALL, VP_ALPHA_CAP=6), merged(BIG, VP_ALPHA_CAP=7))],
     ),
     "C03": dict(
-        rule="definitions with 2-7 rule sets (empty sets, shuffled declaration order, shared prefixes, self-switches, switch-and-return, switches in fallible rules); oracle: reference lexer; a divergence is attributed to C03 when the observed action belongs to a rule set other than the reference's active one, or when restarting the reference in another rule set reproduces the remaining observed history; the eoi family adds `$` rules inside non-Init rule sets. Non-trivial = distinct (definition, input) pairs whose reference run enters two or more rule sets.",
+        rule="definitions with 2-7 rule sets (empty sets, shuffled declaration order, shared prefixes, self-switches, switch-and-return, switches in fallible rules); oracle: reference lexer; a divergence is attributed to C03 when the observed action belongs to a rule set other than the reference's active one, or when restarting the reference in another rule set reproduces the remaining observed history; the eoi family adds `$` rules inside non-Init rule sets, the eoiseq family enumerates every ordered triple of twelve tiny rule-set shapes (`$` after 0-3 characters, plain literals, `$` alone) behind an Init that switches into them, so that a `$` edge renumbered wrongly when the automata are concatenated lands in a neighbouring rule set. Non-trivial = distinct (definition, input) pairs whose reference run enters two or more rule sets.",
         nt="nt_C03",
         parts=[("rulesets", "base", 240, 3600, 20, SMALL, BIG), ("recover", "base", 120, 1600, 20, SMALL, BIG), ("eoi", "base", 100, 1600, 20, SMALL, BIG),
-               ("mixedx", "base", 40, 600, 20, merged(SMALL, VP_ALPHA_CAP=6), merged(BIG, VP_ALPHA_CAP=7))],
+               ("mixedx", "base", 40, 600, 20, merged(SMALL, VP_ALPHA_CAP=6), merged(BIG, VP_ALPHA_CAP=7)),
+               ("eoiseq", "base", 160, 3456, 20, merged(SMALL, VP_ALPHA_CAP=10, VP_EXH_MAX=1200, VP_GUIDED=80), merged(BIG, VP_ALPHA_CAP=10, VP_EXH_MAX=12000, VP_GUIDED=300))],
     ),
     "C04": dict(
         rule="rules with right contexts of every operator shape (multi-character literals, sets, repetition, nullable, `$`, class differences, built-ins) at every priority position, mixed with context-free rules; the eoictx family adds contexts in which `$` repeats, sits under `*` / `+` or is followed by further factors. Non-trivial = distinct (definition, input) pairs in which at least one context evaluation failed and at least one succeeded.",
@@ -525,7 +526,8 @@ GENERIC = {
         rule="definitions with `$` rules in Init / other rule sets / contexts and rules that only complete at end of input; all strings up to a bound (so the input ends at every point). Model-free monitors: fused stream (3 extra next() calls after None), conservation (no character skipped without match or error). Non-trivial = distinct (definition, input) pairs ending outside Init, inside a lexeme, after a rewind, or through a `$` rule.",
         nt="nt_C05",
         parts=[("eoi", "base", 320, 4800, 20, SMALL, BIG),
-               ("mixedx", "base", 40, 600, 20, merged(SMALL, VP_ALPHA_CAP=6), merged(BIG, VP_ALPHA_CAP=7))],
+               ("mixedx", "base", 40, 600, 20, merged(SMALL, VP_ALPHA_CAP=6), merged(BIG, VP_ALPHA_CAP=7)),
+               ("eoiseq", "base", 80, 1728, 20, merged(SMALL, VP_ALPHA_CAP=10, VP_EXH_MAX=1200, VP_GUIDED=80), merged(BIG, VP_ALPHA_CAP=10, VP_EXH_MAX=12000, VP_GUIDED=300))],
     ),
     "C06": dict(
         rule="definitions over an alphabet mixing ASCII, LF, TAB, 2-4 byte, double-width and zero-width characters; every Loc in tokens, errors and action logs is rescanned from the beginning of the input (model-free oracle), spans ordered and on char boundaries, input[start..end] == match_(). Non-trivial = distinct (definition, input) pairs with a rewind across a non-ASCII/TAB/LF character.",
